@@ -55,4 +55,6 @@ def get_world(ctx):
         w = World(ctx.root, overlay=getattr(ctx, 'overlay', None))
         ctx._world = w
         ctx.analysed.update(w.model.stats())
+        ctx.analysed['front_end'] = dict(functions_with_locals_renamed_to_reference=len(w.model.renamed),
+                                         new_helpers_or_locals_expanded=[list(x) for x in w.model.inlined][:20])
     return w
